@@ -553,8 +553,31 @@ def predict(cfg, dm, out):
             out["new_ok"] = "unknown:differs-from-baseline"
     elif cfg["role"] == "arg":
         out["new_ok"] = w.classify(w.seen[-1]) if w.seen else "unknown:observer-not-called"
+        predict_late_column(cfg, obj, out)
     else:
         out["new_ok"] = w.calls[-1] if w.calls else "unknown:no-test-function-called"
+
+
+def predict_late_column(cfg, obj, out):
+    """The name was resolved OUTSIDE the data frame at design time (no such column then); the new
+    frame has a column of that name.  "Looked up first among the data-frame columns": the frame of
+    this evaluation is the new one, so the column wins (tenth seeded wave, C11_O: the new frame
+    was cut down to the design-time columns)."""
+    w = cfg["world"]
+    name = cfg["name"]
+    if cfg["form"] not in ("plain", "kw", "op", "nested", "group", "bq", "bq_space") or "D" in cfg["desc"].get("subset", "") \
+            or name in cfg["data"].columns or cfg["head"] != name:
+        return
+    late = cfg["data"].copy()
+    late[name] = [SCOPE_CODE["D"]] * len(late)
+    del w.seen[:], w.calls[:], w.call_args[:]
+    try:
+        with contextlib.redirect_stdout(io.StringIO()):
+            obj.evaluate_new_data(late)
+    except Exception as e:  # noqa
+        out["late_err"] = type(e).__name__
+        return
+    out["late_ok"] = w.classify(w.seen[-1]) if w.seen else "unknown:observer-not-called"
 
 
 def run_impl(cfg, idx=0):
@@ -970,6 +993,18 @@ def explore(tier, seed, res=None, replay=None):
                             f"same design " + (f"raised {out.get('new_err')}" if new_view == "error"
                                                else f"resolved it to {new_view}")
                             + f", the documented order gives {spec_view}")})
+        if "late_ok" in out or "late_err" in out:
+            res.count("prediction-stage resolutions with a column the design-time frame lacked")
+            late_view = out.get("late_ok", "error")
+            if late_view != "D":
+                res.failures.append({
+                    "case": dict(case, stage="evaluate_new_data-late-column"),
+                    "impl": out, "expected": {"ok": {"t": "D"}}, "finding": None,
+                    "why": (f"the new frame has a column {cfg['name']!r} (the design-time frame had "
+                            f"none and the name came from {impl_view}); evaluate_new_data "
+                            + (f"raised {out.get('late_err')}" if late_view == "error"
+                               else f"resolved the name to {late_view}")
+                            + ", data-frame columns come first")})
         if desc.get("reuse") and impl_view == "PREV":
             # (the statement's order is given for integer `env`; whatever the Environment object
             # holds, a value that only an EARLIER call's extra_namespace bound is in none of the
